@@ -69,8 +69,11 @@ Definition do_place (cfg : sorted_cfg) (p : place) (x : hnd) (l : list hnd) : li
 (* [SetFormatterAgain] = setFormatter called with the formatter OBJECT of the most recent
    setFormatter call (re-applying a configuration); it behaves as [SetFormatter] if there was none *)
 (* [NullCall c] = the typed call of class c with a NULL pointer: every typed call ignores it *)
+(* [AppendAgain c] = the typed append of class c (attr handler, filter, sink, pipeline) called with the
+   OBJECT most recently created for that class — the same handler appended a second time; it behaves
+   as a fresh append if there was none, and is a no-op for c = Fmt / Gen (use SetFormatterAgain) *)
 Inductive op := AppendAttr | AppendFilter | SetFormatter | SetFormatterAgain | AppendSink | AppendPipeline
-              | NullCall (c : cls) | Clear (c : cls) | ClearAll.
+              | AppendAgain (c : cls) | NullCall (c : cls) | Clear (c : cls) | ClearAll.
 (* id = identity of the handler object: the index of the call that created it *)
 Definition step_cfg (cfg : sorted_cfg) (l : list hnd) (id : nat) (o : op) : list hnd :=
   match o with
@@ -80,21 +83,49 @@ Definition step_cfg (cfg : sorted_cfg) (l : list hnd) (id : nat) (o : op) : list
       do_place cfg (p_formatter cfg) (Fmt, id) (if fmt_clears_first cfg then clear Fmt l else l)
   | AppendSink => do_place cfg (p_sink cfg) (Snk, id) l
   | AppendPipeline => do_place cfg (p_pipeline cfg) (Pipe, id) l
+  | AppendAgain c =>
+      match c with
+      | Attr => do_place cfg (p_attr cfg) (Attr, id) l
+      | Filt => do_place cfg (p_filter cfg) (Filt, id) l
+      | Snk => do_place cfg (p_sink cfg) (Snk, id) l
+      | Pipe => do_place cfg (p_pipeline cfg) (Pipe, id) l
+      | Fmt | Gen => l
+      end
   | NullCall _ => l
   | Clear c => clear c l
   | ClearAll => []
   end.
-(* the identity a call inserts: a fresh one (the call's index), except for SetFormatterAgain *)
-Definition hid (lastf : option nat) (id : nat) (o : op) : nat :=
-  match o, lastf with SetFormatterAgain, Some f => f | _, _ => id end.
-Definition next_lastf (lastf : option nat) (id : nat) (o : op) : option nat :=
-  match o with SetFormatter | SetFormatterAgain => Some (hid lastf id o) | _ => lastf end.
-Fixpoint run_from (cfg : sorted_cfg) (l : list hnd) (lastf : option nat) (id : nat) (ops : list op) : list hnd :=
+Definition op_class (o : op) : option cls :=
+  match o with AppendAttr => Some Attr | AppendFilter => Some Filt
+             | SetFormatter | SetFormatterAgain => Some Fmt
+             | AppendAgain c => match c with Fmt | Gen => None | _ => Some c end
+             | AppendSink => Some Snk | AppendPipeline => Some Pipe | _ => None end.
+(* the identity a call inserts: a fresh one (the call's index), except for the "again" calls, which
+   insert the object most recently created for their class; [lastf c] = that object, if any *)
+Definition lasts := cls -> option nat.
+Definition no_lasts : lasts := fun _ => None.
+Definition again_class (o : op) : option cls :=
+  match o with
+  | SetFormatterAgain => Some Fmt
+  | AppendAgain c => match c with Fmt | Gen => None | _ => Some c end
+  | _ => None
+  end.
+Definition hid (lastf : lasts) (id : nat) (o : op) : nat :=
+  match again_class o with
+  | Some c => match lastf c with Some f => f | None => id end
+  | None => id
+  end.
+Definition next_lastf (lastf : lasts) (id : nat) (o : op) : lasts :=
+  match op_class o with
+  | Some c => fun c' => if cls_eqb c' c then Some (hid lastf id o) else lastf c'
+  | None => lastf
+  end.
+Fixpoint run_from (cfg : sorted_cfg) (l : list hnd) (lastf : lasts) (id : nat) (ops : list op) : list hnd :=
   match ops with
   | [] => l
   | o :: t => run_from cfg (step_cfg cfg l (hid lastf id o) o) (next_lastf lastf id o) (S id) t
   end.
-Definition run_cfg (cfg : sorted_cfg) (ops : list op) : list hnd := run_from cfg [] None 0 ops.
+Definition run_cfg (cfg : sorted_cfg) (ops : list op) : list hnd := run_from cfg [] no_lasts 0 ops.
 
 (* ---- specification: ranked stable insertion ---- *)
 Fixpoint insert_sorted (x : hnd) (l : list hnd) : list hnd :=
@@ -102,10 +133,6 @@ Fixpoint insert_sorted (x : hnd) (l : list hnd) : list hnd :=
   | [] => [x]
   | y :: t => if Nat.ltb (rank (fst x)) (rank (fst y)) then x :: l else y :: insert_sorted x t
   end.
-Definition op_class (o : op) : option cls :=
-  match o with AppendAttr => Some Attr | AppendFilter => Some Filt
-             | SetFormatter | SetFormatterAgain => Some Fmt
-             | AppendSink => Some Snk | AppendPipeline => Some Pipe | _ => None end.
 Definition step_ref (l : list hnd) (id : nat) (o : op) : list hnd :=
   match o with
   | SetFormatter | SetFormatterAgain => insert_sorted (Fmt, id) (clear Fmt l)
@@ -125,12 +152,12 @@ Definition log_step (c : cls) (lg : list hnd) (id : nat) (o : op) : list hnd :=
          | Some c' => if cls_eqb c c' then lg ++ [(c, id)] else lg
          | None => lg end
   end.
-Fixpoint log_from (c : cls) (lg : list hnd) (lastf : option nat) (id : nat) (ops : list op) : list hnd :=
+Fixpoint log_from (c : cls) (lg : list hnd) (lastf : lasts) (id : nat) (ops : list op) : list hnd :=
   match ops with
   | [] => lg
   | o :: t => log_from c (log_step c lg (hid lastf id o) o) (next_lastf lastf id o) (S id) t
   end.
-Definition class_log (c : cls) (ops : list op) : list hnd := log_from c [] None 0 ops.
+Definition class_log (c : cls) (ops : list op) : list hnd := log_from c [] no_lasts 0 ops.
 Definition spec_list (ops : list op) : list hnd :=
   class_log Attr ops ++ class_log Filt ops ++ class_log Fmt ops ++ class_log Snk ops ++ class_log Pipe ops.
 
@@ -141,9 +168,10 @@ Fixpoint sortedb (l : list hnd) : bool :=
   | [] => true
   end.
 Definition of_class (c : cls) (l : list hnd) := filter (fun y => cls_eqb (fst y) c) l.
+(* identities along a class part follow call order; equal neighbours = the same object appended again *)
 Fixpoint ids_increasing (l : list hnd) : bool :=
   match l with
-  | a :: t => match t with b :: _ => Nat.ltb (snd a) (snd b) | [] => true end && ids_increasing t
+  | a :: t => match t with b :: _ => Nat.leb (snd a) (snd b) | [] => true end && ids_increasing t
   | [] => true
   end.
 Definition prop_c17_b (l : list hnd) : bool :=
